@@ -40,7 +40,13 @@ func c13bGen(rt *rapid.T) e4Case {
 			c.Cfg.RespTimeoutMs = rapid.SampledFrom([]int{0, 10, 15}).Draw(rt, "respTimeoutMs3")
 			c.Steps = []e4Step{{Kind: "connect"}}
 		}
-		c.Steps = append(c.Steps, e4Step{Kind: "settle"}, e4Step{Kind: "sleep", Extra: c.Cfg.PingMs * 1000 * 10}, e4Step{Kind: "settle"})
+		mult := 10
+		if c.Cfg.PingDelayMs == 0 && rapid.Bool().Draw(rt, "chatter") {
+			// steady outbound traffic must not replace the pings: over 50 intervals at least one PINGREQ is due
+			c.Cfg.ChatterUs = rapid.SampledFrom([]int{300, 1000}).Draw(rt, "chatterUs2")
+			mult = 50
+		}
+		c.Steps = append(c.Steps, e4Step{Kind: "settle"}, e4Step{Kind: "sleep", Extra: c.Cfg.PingMs * 1000 * mult}, e4Step{Kind: "settle"})
 	}
 	return c
 }
@@ -129,6 +135,18 @@ func c13bOracle(r *e4Result) (string, bool, []string) {
 	}
 	if r.Stuck {
 		return "client idle with work undone: " + e4Undone(r), pings >= 2, labels
+	}
+	if r.Case.Cfg.ChatterUs > 0 {
+		labels = append(labels, "c13:healthy-with-chatter")
+		slept := false
+		for _, s := range r.Case.Steps {
+			if s.Kind == "sleep" && s.Extra >= r.Case.Cfg.PingMs*1000*50 {
+				slept = true
+			}
+		}
+		if slept && pings == 0 && r.Quiesced {
+			return fmt.Sprintf("the connection stayed healthy for more than 50 ping intervals (%d ms each) while the application kept publishing, and not a single PINGREQ was sent", r.Case.Cfg.PingMs), true, labels
+		}
 	}
 	return "", pings >= 3, labels
 }
